@@ -20,16 +20,15 @@ def _vars_of(e):
     return sorted(acc)
 
 
-def _scalar_src(e, anchor):
-    """python source of a scalar expression; `anchor` is a variable used to keep the batch shape"""
+def _scalar_src(e, base):
+    """python source of a scalar expression; `base` is 0*(sum of all variables) and keeps the batch
+    shape whichever of the variables are batches, scalars or already fixed defaults"""
     if G.is_aff(e):
         s = repr(float(e[1]))
         for v, c in e[2].items():
             s += " + %r*%s" % (float(c), v)
-        for v in [anchor] if anchor and anchor not in e[2] else []:
-            s += " + 0.0*%s" % v
-        return s
-    return "%r + 0.0*%s" % (float(e), anchor)
+        return s + " + " + base
+    return "%r + %s" % (float(e), base)
 
 
 def param_fn(e):
@@ -39,11 +38,11 @@ def param_fn(e):
         if isinstance(e, list) and not G.is_aff(e):
             return [float(x[1]) if G.is_aff(x) else float(x) for x in e]
         return float(e[1]) if G.is_aff(e) else float(e)
-    anchor = vs[0]
+    base = "0.0*(%s)" % " + ".join(vs)
     if isinstance(e, list) and not G.is_aff(e):
-        body = "torch.column_stack((%s,))" % ", ".join("torch.as_tensor(%s)" % _scalar_src(x, anchor) for x in e)
+        body = "torch.column_stack((%s,))" % ", ".join("torch.as_tensor(%s)" % _scalar_src(x, base) for x in e)
     else:
-        body = _scalar_src(e, anchor)
+        body = _scalar_src(e, base)
     src = "lambda %s: %s" % (", ".join(vs), body)
     fn = eval(src, {"torch": torch})
     fn.__name__ = "f_" + "_".join(vs)
